@@ -14,6 +14,7 @@ F <bufNo>                      -> ok
 C <bufNo> <delta>              -> true | false
 S <cls>                        -> live=<n> free=<n> bump=<n>
 K <n>                          -> <cls> | none    size_class(n)
+P <cls> <delta>                -> true | false    contains(class_base(cls) + delta)
 ```
 -/
 namespace NaijaVerif.Driver.PoolD
@@ -80,6 +81,12 @@ def step (st : St) (line : String) : St × String :=
       match c.toNat? >>= (st.set.pools[·]?) with
       | some p => (st, stats p)
       | none => (st, "bad-op")
+  | ["P", c, d] =>
+      match c.toNat? >>= (st.set.pools[·]?), parseInt? d with
+      | some p, some dl =>
+          let a := (p.base : Int) + dl
+          (st, toString (st.set.contains a.toNat))
+      | _, _ => (st, "bad-op")
   | ["K", n] =>
       match n.toNat? with
       | some k => (st, match sizeClass k with | some c => toString c | none => "none")
